@@ -16,6 +16,7 @@ def run(ck, fb):
     r15k(ck, fb)
     r15l(ck, fb)
     r15m(ck, fb)
+    ck.borrow('rules.c12', {'R12q': 'R15n'}, 'a deregistration answered ok must reach the node that holds the instance, or the nodes return different instance sets until - and after - the next reconciliation')
     ck.borrow('rules.c14', {'R14g': 'R15j'}, 'a refused cluster message is a lost registry / view change: the nodes cannot converge on it')
 
 
